@@ -347,9 +347,18 @@ class Gen:
             l = self.emit('name', rng.choice(TYPE_POOL), 'none')
             self.s.features.add('cast')
             return f, l, 'cast'
-        if 0.998 <= x and cfg.tzcast:
-            # col AT TIME ZONE 'zone' : one keyword token holding a literal
-            f, l, _, _ = self.colref(gap)
+        if 0.996 <= x and cfg.tzcast:
+            # col AT TIME ZONE 'zone' : one keyword token holding a literal;
+            # the operand may also be a DATE / TIMESTAMP literal, which must
+            # stay one TypedLiteral (also with an alias behind: D27, fixed)
+            if cfg.typed_literals and rng.random() < 0.4:
+                f = self.emit('kw', rng.choice(['DATE', 'timestamp']),
+                              gap if gap is not None else self.g())
+                l = self.emit('str', "'2001-09-28'", 'req')
+                self.s.typed.append((f, l))
+                self.s.features.add('typed-tz')
+            else:
+                f, l, _, _ = self.colref(gap)
             zone = rng.choice(["'UTC'", "'America/Port  of  Spain'",
                                "'Europe/Berlin'", "'a\tb'"])
             l = self.emit('kw', 'AT TIME ZONE ' + zone, 'req',
@@ -507,8 +516,7 @@ class Gen:
             if b[2] == 'typed' and cfg.tzcast and rng.random() < 0.3 \
                     and self.s.toks[b[0]].text.upper() != 'INTERVAL':
                 # DATE/TIMESTAMP '...' AT TIME ZONE 'UTC' as the right
-                # operand (only here, where no alias can follow: a typed
-                # literal + AT TIME ZONE + AS alias is finding D27)
+                # operand
                 zone = rng.choice(["'UTC'", "'Europe/Berlin'"])
                 l = self.emit('kw', 'AT TIME ZONE ' + zone, 'req',
                               ['AT', 'TIME', 'ZONE', zone])
